@@ -20,6 +20,13 @@ use crate::universe::Universe;
 /// `--read-faults`: read calls are faultable operations too
 pub static READ_FAULTS: std::sync::atomic::AtomicBool = std::sync::atomic::AtomicBool::new(false);
 
+static CURRENT_SINK: parking_lot::Mutex<Option<Arc<TraceSink>>> = parking_lot::Mutex::new(None);
+
+/// The sink of the execution that is running right now (for the watchdog).
+pub fn current_sink() -> Option<Arc<TraceSink>> {
+    CURRENT_SINK.lock().clone()
+}
+
 pub struct FaultPlan {
     pub seed: u64,
     pub opts: OptSet,
@@ -127,6 +134,7 @@ pub fn run_fault(
 ) -> FaultOutcome {
     let u = Arc::new(Universe::plain(plan.nkeys));
     let sink = TraceSink::new(Arc::clone(&u));
+    *CURRENT_SINK.lock() = Some(Arc::clone(&sink));
     let fs = SimFs::new(ROOT);
     fs.attach(Some(Arc::clone(&sink)));
     fs.record_oplog(record_classes);
